@@ -46,6 +46,24 @@ var (
 )
 
 // Servers builds (once) every linked vector of a project.
+// DrawProject picks the project of a case. The probe schema "core" is built to reach every clause and
+// gets most of the cases; the other probes and the random schemas (drawn by sdlgen for this run's
+// seed at preparation time) guard against a probe that is accidentally benign.
+func DrawProject(t *rapid.T) string {
+	var names []string
+	for _, n := range proj.Names() {
+		w := 1
+		if n == "core" {
+			w = 4
+		}
+		for i := 0; i < w; i++ {
+			names = append(names, n)
+		}
+	}
+	n := rapid.SampledFrom(names).Draw(t, "project")
+	return n
+}
+
 func Servers(name string) ([]*proj.Server, error) {
 	srvMu.Lock()
 	defer srvMu.Unlock()
@@ -133,7 +151,7 @@ func Candidates(ref *refexec.Result) []Candidate {
 		}
 	}
 	for _, k := range ref.Dirs {
-		if !seen["D"+k] {
+		if !seen["D"+k] && !ref.DirsMulti[k] {
 			seen["D"+k] = true
 			out = append(out, Candidate{Key: k, Kind: "D"})
 		}
